@@ -395,6 +395,10 @@ func registerAPIModels() {
 		}
 		return nil
 	}
+	// verifNow(): the clock the code under test reads (time.Now under the engine)
+	apiModels["verifNow"] = func(it *Interp, fr *frame, fn *ssa.Function, args []Value) Value {
+		return models["time.Now"](it, fr, fn, nil)
+	}
 	apiModels["verifDebug"] = func(it *Interp, fr *frame, fn *ssa.Function, args []Value) Value {
 		if os.Getenv("SYMGO_DEBUG") != "" {
 			fmt.Fprintf(os.Stderr, "DEBUG %s = %s\n", argStr(args[0]), observeString(args[1].(Iface).v))
